@@ -167,15 +167,16 @@ def render_leaf(e, st: Style) -> str:
     return f"[{g()}{e[1]}{rep}{g()}]"
 
 
-def render(e, st: Style, parent: Optional[str] = None, top: bool = True) -> str:
-    """write `e`; an operand gets brackets iff its operator binds looser than the parent's (plus optional redundant ones)"""
+def render(e, st: Style, parent: Optional[str] = None, top: bool = True, leaf_text=None) -> str:
+    """write `e`; an operand gets brackets iff its operator binds looser than the parent's (plus optional redundant ones);
+    `leaf_text(leaf)` may supply replacement text for a leaf (textual substitution)"""
     if is_leaf(e):
-        s = render_leaf(e, st)
+        s = (leaf_text(e) if leaf_text else None) or render_leaf(e, st)
         need = False
     else:
         rule = e[0]
-        l = render(e[1], st, rule, False)
-        r = render(e[2], st, rule, False)
+        l = render(e[1], st, rule, False, leaf_text)
+        r = render(e[2], st, rule, False, leaf_text)
         if rule == THEN:
             s = f"{l}{st.gap()}{r}"
         else:
